@@ -6,7 +6,8 @@
    of the code do (C05), see [py_conforming], [cy_conforming]. *)
 From PsdV Require Import Base.Prelude Rle.Model Rle.Proofs.
 From PsdV Require Import Compression.Model Compression.Corr Compression.Proofs Compression.ProofsPredict
-  Compression.ProofsCodec Compression.ProofsLoops.
+  Compression.ProofsCodec Compression.ProofsLoops Compression.ProofsTable.
+From PsdV Require Psd.Codec Psd.Model Compression.File.
 
 Definition zlib_law (zc : list Z -> list Z) (zd : list Z -> option (list Z)) : Prop :=
   forall x, zd (zc x) = Some x.
@@ -52,19 +53,19 @@ Proof. exact ProofsCodec.compress_ok. Qed.
 Print Assumptions compress_ok.
 
 (* the [fits] guard is discharged from the encoder's worst case (C05 encode_bound): PSD rows up to
-   65022 bytes (e.g. 30000 px at 16 bits), PSB rows up to 4261412863 bytes always fit *)
-Theorem v1_safe_row : forall rs, rs <= 65022 -> 128 * rs + 126 < 127 * cmax 1.
+   65023 bytes (e.g. 30000 px at 16 bits), PSB rows up to 4261412863 bytes always fit; both bounds are tight *)
+Theorem v1_safe_row : forall rs, rs <= 65023 -> 128 * rs + 126 < 127 * cmax 1.
 Proof. exact Compression.Proofs.v1_safe_row. Qed.
 Print Assumptions v1_safe_row.
 Theorem v2_safe_row : forall rs, rs <= 4261412863 -> 128 * rs + 126 < 127 * cmax 2.
 Proof. exact Compression.Proofs.v2_safe_row. Qed.
 Print Assumptions v2_safe_row.
 
-(* ... and beyond it the code raises OverflowError (modelled, and observed on the code): 65536 ramp bytes *)
-Theorem compress_rle_v1_overflow : exists data w, raster data w 1 8 /\
+(* ... and right beyond it the code raises OverflowError (modelled, and observed on the code): 65024 ramp bytes *)
+Theorem compress_rle_v1_overflow : exists data w, w = 65023 + 1 /\ raster data w 1 8 /\
   forall zc, compress zc RLE data w 1 8 1 = Err OverflowErr.
 Proof.
-  exists (ramp (Z.to_nat 65536) 0 1), 65536. split.
+  exists (ramp (Z.to_nat 65024) 0 1), 65024. split; [reflexivity|]. split.
   - split; [right; left; reflexivity|]. split; [lia|]. split; [lia|].
     split; [apply bytes_dec|]; vm_compute; reflexivity.
   - intros zc. vm_compute. reflexivity.
@@ -206,3 +207,137 @@ Theorem vma_roundtrip : forall zc zd, zlib_law zc zd -> forall rdec, conforming_
   vm_get_data zd rdec v = Some (Ok data).
 Proof. exact ProofsCodec.vma_roundtrip. Qed.
 Print Assumptions vma_roundtrip.
+
+(* ---------------------------------------------------------------- 5. the RLE row table (C03 clause) *)
+(* the stream encode_rle writes starts with exactly h counts of the width the version prescribes (cw: 2 bytes
+   PSD, 4 bytes PSB); each count is the length of its row and fits the field; the counts sum to the size of
+   the row data that follows; table + rows is the whole stream *)
+Theorem rle_table_truthful : forall data w h depth version e,
+  encode_rle data w h depth version = Ok e ->
+  let k := cw version in
+  let table := firstn (Z.to_nat h * k) e in
+  let body := skipn (Z.to_nat h * k) e in
+  let counts := map be_dec (chunks k table) in
+  length table = (Z.to_nat h * k)%nat /\
+  length counts = Z.to_nat h /\
+  counts = map len (rle_rows data w h depth) /\
+  Forall (fun c => 0 <= c < cmax version) counts /\
+  body = concat (rle_rows data w h depth) /\
+  zsum counts = len body /\
+  len e = Z.of_nat (Z.to_nat h * k) + zsum counts.
+Proof. exact ProofsTable.rle_table_truthful. Qed.
+Print Assumptions rle_table_truthful.
+Example rle_table_truthful_hyp :
+  encode_rle [7; 7; 7; 1; 2; 3] 3 2 8 2 = Ok [0; 0; 0; 2; 0; 0; 0; 4; 254; 7; 2; 1; 2; 3].
+Proof. reflexivity. Qed.
+
+(* ---------------------------------------------------------------- 6. decode_rle on ANY input (C06 clause) *)
+(* what decode_rle hands to the row decoder are consecutive pieces of a prefix of the stream after the
+   table: nothing is read twice, nothing beyond the end of the stream it was given *)
+Theorem decode_rle_reads : forall rdec data w h depth version,
+  let k := cw version in
+  let n := (Z.to_nat h * k)%nat in
+  decode_rle rdec data w h depth version =
+  if negb (Nat.eqb (length (firstn n data) mod k) 0) then Err ValueErr
+  else dec_list rdec (rows_read (map be_dec (chunks k (firstn n data))) (skipn n data)) (row_size w depth).
+Proof. exact ProofsTable.decode_rle_reads. Qed.
+Print Assumptions decode_rle_reads.
+Theorem rows_read_prefix : forall counts data, exists rest, concat (rows_read counts data) ++ rest = data.
+Proof. exact ProofsTable.rows_read_prefix. Qed.
+Print Assumptions rows_read_prefix.
+
+(* both row decoders of the code never return more than the size they were asked for (C05) *)
+Theorem py_bounded : bounded_decoder py_decode.
+Proof. exact ProofsTable.py_bounded. Qed.
+Print Assumptions py_bounded.
+Theorem cy_bounded : bounded_decoder cy_decode.
+Proof. exact ProofsTable.cy_bounded. Qed.
+Print Assumptions cy_bounded.
+
+(* bounded output for every stream, malformed tables and rows included *)
+Theorem decode_rle_bounded : forall rdec, bounded_decoder rdec ->
+  forall data w h depth version r,
+  bytes data -> 0 <= h -> 0 <= row_size w depth ->
+  decode_rle rdec data w h depth version = Ok r ->
+  len r <= h * row_size w depth.
+Proof. exact ProofsTable.decode_rle_bounded. Qed.
+Print Assumptions decode_rle_bounded.
+Example decode_rle_bounded_hyp :     (* a table that promises 255 and 3 bytes over 4 bytes of rows *)
+  bytes [0; 255; 0; 3; 1; 7; 8; 128] /\ decode_rle py_decode [0; 255; 0; 3; 1; 7; 8; 128] 2 2 8 1 = Err ValueErr /\
+  bytes [0; 3; 0; 9; 1; 7; 8; 255; 5] /\ decode_rle py_decode [0; 3; 0; 9; 1; 7; 8; 255; 5] 2 2 8 1 = Ok [7; 8; 5; 5].
+Proof. repeat split; try (apply bytes_dec); vm_compute; reflexivity. Qed.
+
+(* ---------------------------------------------------------------- 7. composition with the file model (C01) *)
+(* pixels -> ChannelData.set_data -> channel j of layer i of a well-formed document -> write_psd -> bytes ->
+   read_psd -> ChannelData.get_data with the re-read header's depth and version: the pixels.
+   (psd_roundtrip of Properties/C01.v gives the compressed bytes back, [roundtrip] above the pixels.) *)
+Theorem pixels_survive_file_channel :
+  forall zc zd, zlib_law zc zd -> forall rdec, conforming_decoder rdec -> forall enc_s dec_s,
+  forall pad (d : Psd.Model.psd) i j data w h cd0 cd' bs n,
+  0 < pad -> Psd.Model.wf_psd enc_s dec_s d = true ->
+  let depth := Psd.Model.h_depth (Psd.Model.p_header d) in
+  let version := Psd.Model.h_version (Psd.Model.p_header d) in
+  raster data w h depth -> codec_guard (cd_comp cd0) depth ->
+  cd_set_data zc cd0 data w h depth version = Ok cd' ->
+  File.layer_channel d i j = Some (File.to_file cd') ->
+  Psd.Model.write_psd enc_s pad d = Ok (bs, n) ->
+  exists d2, Psd.Model.read_psd dec_s bs = Ok d2 /\
+    exists cd2, File.layer_channel d2 i j = Some cd2 /\
+      cd_get_data zd rdec (File.of_file cd2) w h
+        (Psd.Model.h_depth (Psd.Model.p_header d2)) (Psd.Model.h_version (Psd.Model.p_header d2)) = Ok data.
+Proof. exact File.pixels_survive_file_channel. Qed.
+Print Assumptions pixels_survive_file_channel.
+
+(* planes -> ImageData.set_data(planes, header) -> image data section -> write_psd -> read_psd ->
+   ImageData.get_data(header of the re-read document): the planes *)
+Theorem pixels_survive_file_image :
+  forall zc zd, zlib_law zc zd -> forall rdec, conforming_decoder rdec -> forall enc_s dec_s,
+  forall pad c planes (d d1 : Psd.Model.psd) bs n,
+  0 < pad ->
+  let hd := Psd.Model.p_header d in
+  Z.of_nat (length planes) = Psd.Model.h_channels hd ->
+  Forall bytes planes ->
+  Forall (fun p => len p = Psd.Model.h_height hd * row_size (Psd.Model.h_width hd) (Psd.Model.h_depth hd)) planes ->
+  codec_guard c (Psd.Model.h_depth hd) ->
+  File.store_image zc c planes d = Ok d1 ->
+  Psd.Model.wf_psd enc_s dec_s d1 = true ->
+  Psd.Model.write_psd enc_s pad d1 = Ok (bs, n) ->
+  exists d2, Psd.Model.read_psd dec_s bs = Ok d2 /\ File.image_pixels zd rdec d2 = Ok planes.
+Proof. exact File.pixels_survive_file_image. Qed.
+Print Assumptions pixels_survive_file_image.
+
+(* the hypotheses are satisfiable: a 2 x 1, 3-channel, 16-bit PSB with its merged image stored with RLE *)
+Example pixels_survive_file_image_hyp :
+  let d := Psd.Model.mkPSD (Psd.Model.mkHeader Psd.Model.sig_8BPS 2 3 1 2 16 3) [] []
+             (Psd.Model.mkLAMI None None None) (Psd.Model.mkCD 0 []) in
+  let planes := [[0; 1; 0; 1]; [2; 3; 4; 5]; [9; 9; 9; 9]] in
+  exists d1 bs n,
+    File.store_image zid RLE planes d = Ok d1 /\
+    Psd.Model.wf_psd Psd.Model.raw_codec Psd.Model.raw_codec d1 = true /\
+    Psd.Model.write_psd Psd.Model.raw_codec 4 d1 = Ok (bs, n) /\
+    (exists d2, Psd.Model.read_psd Psd.Model.raw_codec bs = Ok d2 /\ File.image_pixels zsome cy_decode d2 = Ok planes).
+Proof.
+  cbv zeta. eexists. eexists. eexists.
+  split; [vm_compute; reflexivity|]. split; [vm_compute; reflexivity|]. split; [vm_compute; reflexivity|].
+  eexists. split; vm_compute; reflexivity.
+Qed.
+
+(* ... and a PSD with one 2 x 1 layer whose only channel holds RLE-compressed pixels *)
+Example pixels_survive_file_channel_hyp :
+  let cd' := {| cd_comp := RLE; cd_data := [0; 2; 255; 5] |} in
+  let rec := Psd.Model.mkRec 0 0 1 2 [Psd.Model.mkCI 0 0] Psd.Model.sig_8BIM 1852797549 255 0
+               (Psd.Model.mkFlags false false false false false false false false) None
+               (Psd.Model.mkBR None None) [76] [] in
+  let d := Psd.Model.mkPSD (Psd.Model.mkHeader Psd.Model.sig_8BPS 1 3 4 4 8 3) [] []
+             (Psd.Model.mkLAMI (Some (Psd.Model.mkLI 1 (Some [rec]) (Some [[File.to_file cd']]))) None (Some []))
+             (Psd.Model.mkCD 0 [0; 0; 0; 0; 0; 0; 0; 0; 0; 0; 0; 0]) in
+  Psd.Model.wf_psd Psd.Model.raw_codec Psd.Model.raw_codec d = true /\
+  raster [5; 5] 2 1 8 /\
+  cd_set_data zid {| cd_comp := RLE; cd_data := [] |} [5; 5] 2 1 8 1 = Ok cd' /\
+  File.layer_channel d 0 0 = Some (File.to_file cd') /\
+  exists bs n, Psd.Model.write_psd Psd.Model.raw_codec 4 d = Ok (bs, n).
+Proof.
+  cbv zeta. split; [vm_compute; reflexivity|]. split.
+  - split; [right; left; reflexivity|]. split; [lia|]. split; [lia|]. split; [apply bytes_dec|]; reflexivity.
+  - split; [vm_compute; reflexivity|]. split; [reflexivity|]. eexists. eexists. vm_compute. reflexivity.
+Qed.
